@@ -1,5 +1,5 @@
 """C13 -- solving again gives fresh, consistent answers."""
-from . import state, formula
+from . import state, formula, translate
 
 LEVEL = "other"
 EXPLANATION = ("Per-solve freshness (new wrapper, rebinding of the tracking lists and of the objective leaf, regeneration of class and "
@@ -16,4 +16,5 @@ def run(ctx):
     state.r_memo(ctx)
     state.r_memo_new(ctx)
     formula.r_regen(ctx)
+    translate.r_leafreg(ctx)     # every registered leaf is re-assigned, unconditionally, after each successful solve
     ctx.floor("accumulating writes examined", n, 8)
